@@ -76,6 +76,87 @@ def find_harness(module, name):
     raise KeyError(f"obligation {name} not found in {module}")
 
 
+def crc_repairs(raw):
+    """Variants of an octet string in which some prefix has CRC-16 residue zero, obtained by
+    rewriting one 2-octet window (the CRC is GF(2)-affine in the window).  The verifier treats
+    crc16 as uninterpreted, so its models need this repair before they can fail natively."""
+    import pyvc_spec as ps
+    raw = bytes(raw)
+    n = len(raw)
+    for N in list(range(n, 1, -1)):
+        for p in list(range(N - 2, -1, -1)):
+            x0 = bytearray(raw[:N])
+            x0[p] = 0
+            x0[p + 1] = 0
+            base = ps.crc16(x0)
+            cols = []
+            for bit in range(16):
+                y = bytearray(x0)
+                y[p + (0 if bit < 8 else 1)] ^= 1 << (7 - bit % 8)
+                cols.append(ps.crc16(y) ^ base)
+            # solve sum(sel_i * cols_i) == base over GF(2)
+            rows = [(cols[i], 1 << i) for i in range(16)]
+            target, sel = base, 0
+            piv = []
+            for bitpos in range(15, -1, -1):
+                idx = next((k for k, (v, _) in enumerate(rows) if (v >> bitpos) & 1), None)
+                if idx is None:
+                    continue
+                pv, pm = rows.pop(idx)
+                rows = [((v ^ pv, m ^ pm) if (v >> bitpos) & 1 else (v, m)) for v, m in rows]
+                piv.append((bitpos, pv, pm))
+            for bitpos, pv, pm in piv:
+                if (target >> bitpos) & 1:
+                    target ^= pv
+                    sel ^= pm
+            if target != 0:
+                continue
+            y = bytearray(raw)
+            y[p] = sum(((sel >> i) & 1) << (7 - i) for i in range(8))
+            y[p + 1] = sum(((sel >> (8 + i)) & 1) << (7 - i) for i in range(8))
+            if ps.crc16(y[:N]) == 0 and bytes(y) != raw:
+                yield bytes(y)
+
+
+def violated(ans, label):
+    labels = {}
+    for l, ok in ans["labels"]:
+        labels[l] = labels.get(l, True) and ok
+    if labels.get(label) is False:
+        return True
+    if label == "no-escape" and ans["escaped"]:
+        return True
+    if ans["escaped"] and label not in labels:
+        return True
+    return False
+
+
+def run_with_repair(req):
+    """run; if the clause is not violated on the model's inputs, try CRC-repaired variants"""
+    ans = run_one(req)
+    label = req.get("label")
+    if label is None or "error" in ans or violated(ans, label):
+        return ans
+    inputs = dict(req["inputs"] or {})
+    tries = 0
+    for k, v in list(inputs.items()):
+        if not (isinstance(v, dict) and v.get("bytes")):
+            continue
+        for cand in crc_repairs(bytes.fromhex(v["bytes"])):
+            tries += 1
+            if tries > 4000:
+                break
+            inp2 = dict(inputs)
+            inp2[k] = {"bytes": cand.hex()}
+            a2 = run_one({"module": req["module"], "name": req["name"], "inputs": inp2})
+            if violated(a2, label):
+                a2["repaired_inputs"] = inp2
+                a2["repair"] = f"input {k}: one 2-octet window rewritten so that a prefix has CRC residue 0 ({tries} candidates tried)"
+                return a2
+    ans["repair_tried"] = tries
+    return ans
+
+
 def run_one(req):
     import pyvc_spec as ps
     f = find_harness(req["module"], req["name"])
@@ -106,8 +187,8 @@ def main():
     setup(repo)
     if argv and argv[0] == "replay":
         doc = json.load(open(argv[1]))
-        ans = run_one({"module": doc["module"], "name": doc["obligation"], "inputs": doc.get("inputs")})
         label = doc.get("clause")
+        ans = run_with_repair({"module": doc["module"], "name": doc["obligation"], "inputs": doc.get("inputs"), "label": label})
         bad = [l for l, ok in ans["labels"] if not ok]
         print(json.dumps(ans, indent=1))
         if (label in bad) or (label == "no-escape" and ans["escaped"]) or (label is None and (bad or ans["escaped"])):
@@ -121,7 +202,7 @@ def main():
             if not line:
                 continue
             try:
-                ans = run_one(json.loads(line))
+                ans = run_with_repair(json.loads(line))
             except Exception as e:  # noqa
                 ans = {"error": f"{type(e).__name__}: {e}", "trace": traceback.format_exc(limit=6)[-1500:]}
             sys.stdout.write(json.dumps(ans) + "\n")
